@@ -510,6 +510,7 @@ impl Check for C15 {
                         _ => 3, // hostile chunks
                     };
                     let gen = if origin_i == 0 && rng.chance(1, 60) { 6 } else { gen }; // > 1024 tiny valid messages
+                    let gen = if origin_i == 0 && rng.chance(1, 8) { 8 } else { gen }; // 10-200 tiny valid messages under a small window
                     let gen = if origin_i == 0 && rng.chance(1, 300) { 7 } else { gen }; // one message in > 65,536 chunks
                     let mut b = c03::gen_stream_for_c15(gen, rng, &mut enc, hint);
                     if origin_i == 0 && rng.coin() {
